@@ -1,0 +1,51 @@
+// SPDX-FileCopyrightText: 2026 The Pion community <https://pion.ly>
+// SPDX-License-Identifier: MIT
+
+//go:build verif
+
+package ice
+
+import (
+	"net"
+	"time"
+)
+
+// Exports for the external verification harness (/verif, property C15). Built only with -tags verif.
+
+// VerifTCPMuxExpire lets the alive period of the packet conn registered under
+// (ufrag, isIPv6, local) elapse: if its alive timer is still armed (not stopped by
+// ClearAliveTimer or Close and not yet fired) the timer is re-armed to fire immediately,
+// so the callback installed by newTCPPacketConn runs on the timer goroutine as it would
+// at the configured time. It reports whether the timer was armed and returns the close
+// channel of that packet conn (nil when nothing is registered under the key).
+func VerifTCPMuxExpire(m *TCPMuxDefault, ufrag string, isIPv6 bool, local net.IP) (bool, <-chan struct{}) {
+	m.mu.Lock()
+	conn, ok := m.getConn(ufrag, isIPv6, local)
+	m.mu.Unlock()
+	if !ok || conn == nil {
+		return false, nil
+	}
+
+	conn.mu.Lock()
+	defer conn.mu.Unlock()
+	if conn.aliveTimer != nil && conn.aliveTimer.Stop() {
+		conn.aliveTimer.Reset(time.Nanosecond)
+
+		return true, conn.closedChan
+	}
+
+	return false, conn.closedChan
+}
+
+// VerifTCPMuxExpireProbe returns the close channel of the packet conn registered under
+// (ufrag, isIPv6, local) without touching its timer (nil when nothing is registered).
+func VerifTCPMuxExpireProbe(m *TCPMuxDefault, ufrag string, isIPv6 bool, local net.IP) (bool, <-chan struct{}) {
+	m.mu.Lock()
+	conn, ok := m.getConn(ufrag, isIPv6, local)
+	m.mu.Unlock()
+	if !ok || conn == nil {
+		return false, nil
+	}
+
+	return true, conn.closedChan
+}
